@@ -475,6 +475,14 @@ class Folder:
             if canon(n) == cc:
                 body = b
                 break
+        if body is not None and "{closure#" in cc and body["params"] and not body["params"][0].get("pat"):
+            # a closure bound to a local and called by name: `let f = |x| ..; f(v)` - applied in the current environment
+            # (its captured variables are the caller's); the callee expression itself is the first argument
+            cargs = e["args"][1:] if len(e["args"]) == len(body["params"]) else e["args"]
+            if len(e["args"]) == 2 and strip(e["args"][1]).get("k") == "Tuple":
+                cargs = strip(e["args"][1])["fields"]       # Fn::call(&f, (a, b, ..))
+            if len(cargs) == len(body["params"]) - 1:
+                return self.apply_closure({"__closure__": next(n for n in self.facts.thir if canon(n) == cc)}, [self.fold(a) for a in cargs])
         if body is None or len(body["params"]) != len(e["args"]):
             return NotImplemented
         args = [self.fold(a) for a in e["args"]]
@@ -574,6 +582,51 @@ class Folder:
             x, y = self.fold(a[0]), self.fold(a[1])
             if valuelike(x) and valuelike(y):
                 return (norm(x) == norm(y)) == (last == "eq")
+        if cc.startswith(("core::option::Option", "core::result::Result")) and last in ("map", "map_or", "map_or_else", "and_then", "unwrap_or_else", "copied", "cloned", "or", "is_some_and", "ok", "unwrap_or_default"):
+            v = self.fold(a[0])
+            if isinstance(v, dict) and v.get("__variant__") in ("Some", "None", "Ok", "Err"):
+                good = v["__variant__"] in ("Some", "Ok")
+                if last in ("copied", "cloned") and len(a) == 1:
+                    return v
+                if last == "ok" and len(a) == 1:
+                    return {"__adt__": "core::option::Option", "__variant__": "Some", "#0": v.get("#0"), "0": v.get("#0")} if good else {"__adt__": "core::option::Option", "__variant__": "None"}
+                if last == "map" and len(a) == 2:
+                    if not good:
+                        return v
+                    r2 = self.apply_closure(self.fold(a[1]), [v.get("#0")]) if isinstance(self.fold(a[1]), dict) and "__closure__" in self.fold(a[1]) else None
+                    if r2 is None and not (isinstance(self.fold(a[1]), dict) and "__closure__" in self.fold(a[1])):
+                        return NotImplemented
+                    return dict(v, **{"#0": r2, "0": r2})
+                if last == "map_or" and len(a) == 3:
+                    if not good:
+                        return self.fold(a[1])
+                    cl = self.fold(a[2])
+                    if isinstance(cl, dict) and "__closure__" in cl:
+                        return self.apply_closure(cl, [v.get("#0")])
+                    return NotImplemented
+                if last == "is_some_and" and len(a) == 2:
+                    if not good:
+                        return False
+                    cl = self.fold(a[1])
+                    if isinstance(cl, dict) and "__closure__" in cl:
+                        return bool(self.apply_closure(cl, [v.get("#0")]))
+                    return NotImplemented
+                if last == "and_then" and len(a) == 2:
+                    if not good:
+                        return v
+                    cl = self.fold(a[1])
+                    if isinstance(cl, dict) and "__closure__" in cl:
+                        return self.apply_closure(cl, [v.get("#0")])
+                    return NotImplemented
+                if last == "unwrap_or_else" and len(a) == 2:
+                    if good:
+                        return v.get("#0")
+                    cl = self.fold(a[1])
+                    if isinstance(cl, dict) and "__closure__" in cl:
+                        return self.apply_closure(cl, [] if v["__variant__"] == "None" else [v.get("#0")])
+                    return NotImplemented
+                if last == "or" and len(a) == 2:
+                    return v if good else self.fold(a[1])
         if last in ("is_some", "is_none", "is_ok", "is_err") and cc.startswith(("core::option::Option", "core::result::Result")) and len(a) == 1:
             v = self.fold(a[0])
             if isinstance(v, dict) and "__variant__" in v:
@@ -625,11 +678,27 @@ class Folder:
         if last in ("is_ascii_digit",) and len(a) == 1:
             v = self.fold(a[0])
             return 48 <= v <= 57
-        if cc.endswith("core::convert::Into<U>>::into") or cc.endswith("core::convert::From<T>>::from"):
-            if len(a) == 1 and e["ty"] in INT_TYPES:
-                v = self.fold(a[0])
-                if isinstance(v, int):
-                    return v
+        if last in ("into", "from") and len(a) == 1 and ("core::convert" in cc or "core::char::convert" in cc or cc.startswith("core::num")) \
+                and (e["ty"] in INT_TYPES or e["ty"] == "char"):
+            # lossless numeric widening / u8 -> char (a char is its code point here)
+            v = self.fold(a[0])
+            if isinstance(v, bool):
+                return int(v)
+            if isinstance(v, int):
+                return self._chk(v, e) if e["ty"] in INT_TYPES else v
+        if last in ("from_be_bytes", "from_le_bytes") and cc.startswith("core::num") and len(a) == 1:
+            v = self.fold(a[0])
+            if isinstance(v, (list, tuple)) and all(isinstance(x, int) and 0 <= x <= 255 for x in v):
+                bs = list(v) if last == "from_be_bytes" else list(reversed(v))
+                out = 0
+                for x in bs:
+                    out = out * 256 + x
+                return out
+        if last in ("call", "call_mut", "call_once") and "ops::function" in cc and len(a) == 2:
+            cl = self.fold(a[0])
+            if isinstance(cl, dict) and "__closure__" in cl:
+                args = self.fold(a[1])
+                return self.apply_closure(cl, list(args) if isinstance(args, (tuple, list)) else [args])
         return NotImplemented
 
     def _seq_builtin(self, cc, last, a, e):
@@ -775,6 +844,32 @@ class Folder:
             if isinstance(v, str):  # fieldless enum given by variant name
                 return v == pat["variant"], {}
             raise Undecidable("variant pattern on non-adt")
+        if k == "Slice":
+            if not isinstance(v, (list, tuple)):
+                raise Undecidable("slice pattern on a non-sequence")
+            pre, suf = pat.get("prefix", []), pat.get("suffix", [])
+            if "slice" in pat:
+                if len(v) < len(pre) + len(suf):
+                    return False, {}
+            elif len(v) != len(pre) + len(suf):
+                return False, {}
+            binds = {}
+            for p2, x in zip(pre, v[:len(pre)]):
+                ok, b = self._pat_match(p2, x)
+                if not ok:
+                    return False, {}
+                binds.update(b)
+            for p2, x in zip(suf, v[len(v) - len(suf):] if suf else []):
+                ok, b = self._pat_match(p2, x)
+                if not ok:
+                    return False, {}
+                binds.update(b)
+            if "slice" in pat:
+                ok, b = self._pat_match(pat["slice"], list(v[len(pre):len(v) - len(suf)]))
+                if not ok:
+                    return False, {}
+                binds.update(b)
+            return True, binds
         if k == "Leaf":
             binds = {}
             for fp in pat["fields"]:
@@ -882,6 +977,23 @@ def call_trace(facts, fn, env, watch, local_calls=0):
     fo = Folder(facts, env=dict(env), on_call=on_call, effects=True, local_calls=local_calls)
     res = fo.run(b["body"])
     return trace, res
+
+
+def sink_call(folder, c, sink):
+    """model of the calls that append to an output buffer: push(x) / extend_from_slice(&[..]) / extend([..]) record their
+    values in `sink` (in order).  Returns True when the call was one of them."""
+    cc = canon(callee_of(c))
+    last = cc.split("::")[-1]
+    if last == "push" and len(c["args"]) == 2:
+        sink.append(folder.fold(c["args"][1]))
+        return True
+    if last in ("extend_from_slice", "extend") and len(c["args"]) == 2:
+        v = folder.fold(c["args"][1])
+        if isinstance(v, (list, tuple)):
+            sink.extend(list(v))
+            return True
+        raise Undecidable("extend with a non-literal sequence")
+    return False
 
 
 def find_fn(facts, name):
@@ -1260,6 +1372,23 @@ def for_loop_parts(m):
     return None
 
 
+def while_parts(lp):
+    """(condition, body block) of a raw `Loop` node that has the `while` shape loop { if c { body } else { break } }"""
+    if lp.get("k") != "Loop":
+        return None
+    b = strip(lp["body"])
+    while b.get("k") == "Block" and not b.get("stmts") and "expr" in b:
+        b = strip(b["expr"])
+    if b.get("k") == "If" and "else" in b and b["cond"].get("k") != "Let":
+        els = strip(b["else"])
+        brk = els.get("k") == "Break" or (els.get("k") == "Block" and len(els.get("stmts", [])) == 1 and "expr" not in els
+                                          and strip(els["stmts"][0].get("expr", {})).get("k") == "Break") \
+            or (els.get("k") == "Block" and not els.get("stmts") and strip(els.get("expr", {})).get("k") == "Break")
+        if brk:
+            return b["cond"], b["then"]
+    return None
+
+
 def pat_names(p):
     out = []
     for n in walk(p):
@@ -1315,6 +1444,7 @@ def stmts(e, lets=None):
                 out.extend(stmts(st["expr"], lets))
         if "expr" in e:
             out.extend(stmts(e["expr"], lets))
+        out = _counting_loops(out)
         return out if lets.get("__noinline__") else _forward_single_use(out)
     if k == "Match":
         if str(e.get("source", "")).startswith("TryDesugar"):
@@ -1357,6 +1487,54 @@ def stmts(e, lets=None):
     if k == "Continue":
         return [("continue", sp)]
     return [("expr", sx(e, lets), sp)]
+
+
+def _outer_continue(stl):
+    for st in stl:
+        if st[0] == "continue":
+            return True
+        if st[0] == "if" and (_outer_continue(st[2]) or _outer_continue(st[3])):
+            return True
+        if st[0] == "match" and any(_outer_continue(bd) for _p, bd, _g in st[2]):
+            return True
+        if st[0] == "letelse" and _outer_continue(st[1]):
+            return True
+    return False
+
+
+def _assigned(stl, short):
+    return [st for st in stmt_walk(stl) if st[0] in ("assign", "assignop") and (st[1] if st[0] == "assign" else st[2])[:2] == ("var", short)]
+
+
+def _counting_loops(out):
+    """`while v > 0 { body; v -= 1 }`  ->  for _ in 0..v { body };   `let mut v = lo; while v < hi { body; v += 1 }`  ->
+    for v in lo..hi { body }  - when the counter is stepped only by the last statement of the body and nothing continues
+    past it.  (A loop with a strictly monotone counter and a fixed bound is a bounded loop.)"""
+    res = []
+    for st in out:
+        done = False
+        if st[0] == "loop" and len(st[1]) == 1 and st[1][0][0] == "if" and len(st[1][0][3]) == 1 and st[1][0][3][0][0] == "break":
+            cond, body = st[1][0][1], st[1][0][2]
+            if isinstance(cond, tuple) and cond[0] == "bin" and body and body[-1][0] == "assignop" and body[-1][3] == ("lit", 1) and body[-1][2][0] == "var":
+                v = body[-1][2][1]
+                step = body[-1][1]
+                clean = len(_assigned(body, v)) == 1 and not _outer_continue(body)
+                rng = None
+                if clean and step == "SubAssign" and ((cond[1] == "Gt" and cond[2][:2] == ("var", v) and cond[3] == ("lit", 0))
+                                                      or (cond[1] == "Ne" and cond[2][:2] == ("var", v) and cond[3] == ("lit", 0))
+                                                      or (cond[1] == "Lt" and cond[3][:2] == ("var", v) and cond[2] == ("lit", 0))):
+                    rng = (["_"], ("lit", 0), cond[2] if cond[1] != "Lt" else cond[3])
+                elif clean and step == "AddAssign" and cond[1] == "Lt" and cond[2][:2] == ("var", v) and not any(isinstance(x, tuple) and x[:2] == ("var", v) for x in sx_walk(cond[3])) \
+                        and res and res[-1][0] == "let" and res[-1][2] and res[-1][1].split("#")[0] == v:
+                    lo = res.pop()[3]
+                    rng = ([body[-1][2][2] if len(body[-1][2]) > 2 else v], lo, cond[3])
+                if rng:
+                    it = ("adt", "core::ops::Range", "Range", (("start", rng[1]), ("end", rng[2])))
+                    res.append(("for", rng[0], it, body[:-1], st[2]))
+                    done = True
+        if not done:
+            res.append(st)
+    return res
 
 
 def _count_var(t, name):
